@@ -201,12 +201,9 @@ def dispatch(ctx):
             t = st.test
             okg = False
             if isinstance(t, ast.Compare) and len(t.ops) == 1 and isinstance(t.ops[0], ast.Eq):
-                try:
-                    lhs = factories.wavenumber_value(t.left)
-                    rhs = factories.wavenumber_value(t.comparators[0])
-                    okg = (lhs - rhs).eq(KR) or (rhs - lhs).eq(KR)
-                except AnalysisError:
-                    okg = False
+                lhs = factories.wavenumber_value(t.left)  # (an expression outside the wavenumber subset: cannot analyse, not a verdict)
+                rhs = factories.wavenumber_value(t.comparators[0])
+                okg = (lhs - rhs).eq(KR) or (rhs - lhs).eq(KR)
             r_g.check(okg, inst, rel, fname, st.lineno, "dispatch test " + unparse(t),
                       "dispatch guard `%s` is not `real(wavenumber) == 0`" % unparse(t))
             # callee
@@ -257,10 +254,7 @@ def dispatch(ctx):
             # options on the non-dispatch path
             oko = False
             if isinstance(opt_self, (ast.List, ast.Tuple)) and len(opt_self.elts) == 2:
-                try:
-                    oko = factories.wavenumber_value(opt_self.elts[0]).eq(KR) and factories.wavenumber_value(opt_self.elts[1]).eq(KI)
-                except AnalysisError:
-                    oko = False
+                oko = factories.wavenumber_value(opt_self.elts[0]).eq(KR) and factories.wavenumber_value(opt_self.elts[1]).eq(KI)
             r_o.check(oko, inst, rel, fname, site.lineno, "options " + (unparse(opt_self) if opt_self is not None else "?"),
                       "kernel parameters are `%s`, expected [real(k), imag(k)]" % (unparse(opt_self) if opt_self is not None else "?"))
             # modified callee's own options must be [omega]
